@@ -4,6 +4,8 @@
 mod codecreplay;
 mod concmodel;
 mod concreplay;
+mod vecconc;
+mod vecfree;
 mod crashreplay;
 mod eagerreplay;
 mod importreplay;
@@ -39,6 +41,8 @@ fn main() {
         "openreplay" => openreplay::main(&args[2..]),
         "concreplay" => concreplay::main(&args[2..]),
         "concmodel" => concmodel::main(&args[2..]),
+        "vecconc" => vecconc::main(&args[2..]),
+        "vecfree" => vecfree::main(&args[2..]),
         "openprobe" => openreplay::probe_main(&args[2..]),
         other => {
             eprintln!("unknown subcommand {other}");
